@@ -106,6 +106,8 @@ def enc(x):
     if _CUR[0] is not None and x is _CUR[0].ctx_obj:
         return 'CTX'
     if isinstance(x, tuple):
+        if len(x) == 2 and x[0] == 'sub' and isinstance(x[1], tuple):
+            return f'(sub,{x[1][1]})'
         return '(' + ','.join(enc(e) for e in x) + ')'
     if isinstance(x, list):
         return '[' + ','.join(enc(e) for e in x) + ']'
@@ -152,6 +154,41 @@ def get_fn(i, ctxful):
             def fn(*args, _name=f'f{i}'):
                 return _call(_name, args)
         fn.__name__ = f'g{i}' if ctxful else f'f{i}'
+        _FUNCS[key] = fn
+    return fn
+
+
+_SUBS = {}       # sub id -> (real Workflow, mirror, world) for dynamically called workflows
+
+
+def _call_sub(fname, args):
+    """A task that dynamically calls a sub-workflow through context.call_workflow
+    (dispatchers/local_dask/call.py) and folds its result into its own value."""
+    run = _CUR[0]
+    argsigs = tuple(enc(a) for a in args)
+    run.seq += 1
+    run.calls.append((run.seq, 'start', fname, argsigs, None))
+    marker = next(a for a in args if isinstance(a, tuple) and len(a) == 2 and a[0] == 'sub')
+    wf = _SUBS[marker[1]][0]
+    context = args[0]
+    k = run.kernel
+    if k is not None:
+        k.yield_point('task.hold')
+    run.ncalls_sub = getattr(run, 'ncalls_sub', 0) + 1
+    sub = context.call_workflow(wf, f'sub-{marker[1]}-{run.ncalls_sub}')
+    v = value_of(fname, argsigs + (enc(sub),))
+    run.seq += 1
+    run.calls.append((run.seq, 'end', fname, argsigs, v))
+    return v
+
+
+def get_caller_fn(i):
+    key = ('h', i)
+    fn = _FUNCS.get(key)
+    if fn is None:
+        def fn(context, *args, _name=f'h{i}'):
+            return _call_sub(_name, (context,) + args)
+        fn.__name__ = f'h{i}'
         _FUNCS[key] = fn
     return fn
 
@@ -238,6 +275,9 @@ class World:
         self.ops = []         # textual op log (for samples / decode)
         self.uses_results_string = False
         self.allow_results = True
+        self.allow_sub = False
+        self.in_sub = False
+        self.subs = {}
 
     def count(self, key, n=1):
         self.stats[key] = self.stats.get(key, 0) + n
@@ -271,19 +311,51 @@ class World:
         if like is not None and t.draw(2, 'replace.keep') == 0:
             sp = dict(self.spec[like])
             if t.draw(2, 'replace.newstatic'):
-                sp['static'] = self.gen_static()
+                st = self.gen_static()
+                if sp.get('caller'):
+                    st = (sp['static'][0],) + tuple(x for x in st if x != 'results')
+                sp['static'] = st
         else:
             sp = {'name': f't{t.draw(4, "name")}', 'fi': t.draw(5, 'fn'),
                   'ctxful': t.draw(4, 'ctxful') == 3, 'static': self.gen_static()}
-        self.spec[uid] = sp
         Task = _P['pw'].Task
+        if like is None and self.allow_sub and not self.in_sub and t.draw(7, 'caller') == 6:
+            # a task that calls a small sub-workflow dynamically (distributed branch only)
+            self.in_sub = True
+            try:
+                sub_wb, sub_m = small_workflow(self, max_tasks=3)
+                outs = sub_m.outputs()
+                if len(outs) > 1:
+                    j = self.new_task()
+                    sub_wb.add_task(self.tasks[j], predecessors=[self.tasks[p] for p in outs])
+                    sub_m.add_task(j, outs)
+            finally:
+                self.in_sub = False
+            sid = len(_SUBS_LOCAL(self))
+            self.subs[sid] = (_P['pw'].Workflow(sub_wb), sub_m)
+            sp = {'name': sp['name'], 'fi': sp['fi'], 'ctxful': True, 'caller': True, 'sub': sid,
+                  'static': (('sub', (id(self), sid)),) + tuple(x for x in sp['static'] if x != 'results')}
+            _SUBS[(id(self), sid)] = (self.subs[sid][0], sub_m, self)
+            self.spec[uid] = sp
+            self.tasks[uid] = Task(sp['name'], get_caller_fn(sp['fi']), *sp['static'])
+            self.count('op.caller_task')
+            return uid
+        if sp.get('caller'):
+            self.spec[uid] = sp
+            self.tasks[uid] = Task(sp['name'], get_caller_fn(sp['fi']), *sp['static'])
+            return uid
+        self.spec[uid] = sp
         self.tasks[uid] = Task(sp['name'], get_fn(sp['fi'], sp['ctxful']), *sp['static'])
         return uid
 
     def describe(self, uid):
         sp = self.spec[uid]
-        fn = ('g' if sp['ctxful'] else 'f') + str(sp['fi'])
+        fn = ('h' if sp.get('caller') else 'g' if sp['ctxful'] else 'f') + str(sp['fi'])
         return f"#{uid}:{sp['name']}={fn}({','.join(enc(s) for s in sp['static'])})"
+
+
+def _SUBS_LOCAL(world):
+    return world.subs
 
 
 def compare(world, real, mirror, op):
@@ -562,11 +634,23 @@ def reference_eval(world, m, fail_sigs=frozenset()):
                 failed.add(u)
                 continue
             sp = world.spec[u]
-            fname = ('g' if sp['ctxful'] else 'f') + str(sp['fi'])
+            fname = ('h' if sp.get('caller') else 'g' if sp['ctxful'] else 'f') + str(sp['fi'])
             argsigs = tuple((['CTX'] if sp['ctxful'] else []) + [enc(s) for s in sp['static']] +
                             [enc(value[p]) for p in sorted(ps, key=lambda p: pos[p])])
             sig = (fname, argsigs)
             calls[sig] = calls.get(sig, 0) + 1
+            if sp.get('caller'):
+                # dynamically called sub-workflow: evaluated with the same reference rules
+                sub_m = world.subs[sp['sub']][1]
+                sv, sc, sf, sr = reference_eval(world, sub_m, fail_sigs)
+                for k_, n_ in sc.items():
+                    calls[k_] = calls.get(k_, 0) + n_
+                if sr or sf:
+                    failed.add(u)
+                    raised |= sr
+                    continue
+                value[u] = value_of(fname, argsigs + (enc(sv[sub_m.outputs()[0]]),))
+                continue
             if sig in fail_sigs:
                 failed.add(u)
                 raised.add(sig)
@@ -605,6 +689,7 @@ def make_distributed_stubs(env_ref, stats):
     class StubClient:
         def __init__(self, cluster=None, *a, **k):
             self.closed = False
+            StubClient.active_keys = []
 
         def __enter__(self):
             return self
@@ -622,7 +707,30 @@ def make_distributed_stubs(env_ref, stats):
         def close(self):
             self.closed = True
 
+        def gather(self, futures, **kw):
+            return futures.value if isinstance(futures, _Done) else futures
+
         def get(self, dsk, key, sync=True, **kw):
+            res = self._get(dsk, key)
+            return res if sync else _Done(res)
+
+        active_keys = []     # keys of graphs in flight in the (shared) scheduler
+
+        def _get(self, dsk, key):
+            mine = set(dsk)
+            for other in StubClient.active_keys:
+                clash = mine & other
+                if clash:
+                    # dask.distributed identifies tasks by key: a second graph that re-uses a
+                    # key of a graph still in flight would be wired to the other computation
+                    raise RuntimeError(f'key collision in the shared scheduler: {sorted(clash)[:3]}')
+            StubClient.active_keys.append(mine)
+            try:
+                return self._compute(dsk, key)
+            finally:
+                StubClient.active_keys.remove(mine)
+
+        def _compute(self, dsk, key):
             # futures are opaque data references: materialise them as data nodes
             extra = {}
 
@@ -641,6 +749,10 @@ def make_distributed_stubs(env_ref, stats):
                 g[k_] = (_Literal(f.value),)
             env = env_ref[0]
             return dask_local.get_async(env.pool.submit, env.pool._max_workers, g, key)
+
+    class _Done:
+        def __init__(self, value):
+            self.value = value
 
     class _Literal:
         def __init__(self, v):
@@ -670,6 +782,7 @@ def run_one(cfg, tape: Tape, want_trace=False):
     stats = {}
     world = World(tape, stats)
     world.allow_results = cfg['branch'] == 'threaded'
+    world.allow_sub = cfg['branch'] == 'distributed'
     violations = []
     res = {'violations': violations, 'harness_error': None, 'stats': stats, 'steps': 0,
            'switches': 0, 'sim_seconds': 0.0, 'outcome': 'ok', 'states': []}
@@ -737,7 +850,7 @@ def _execute(cfg, tape, world, wf, m, multi, viol, stats, h, want_trace):
     fail_sigs = frozenset()
     if cfg['fault'] == 'task' and not multi:
         _, calls0, _, _ = reference_eval(world, m)
-        sigs = sorted(calls0)
+        sigs = sorted(x for x in calls0 if not x[0].startswith('h'))
         k = 1 + tape.draw(2, 'fault.ntasks')
         chosen = set()
         for _ in range(k):
@@ -771,8 +884,18 @@ def _execute(cfg, tape, world, wf, m, multi, viol, stats, h, want_trace):
     dask_local.Queue = env.make_queue
     if cfg['branch'] == 'distributed':
         SF, SC, SCl = make_distributed_stubs(env_ref, stats)
-        saved_dd = (dd.Client, dd.LocalCluster, dd.Future)
-        dd.Client, dd.LocalCluster, dd.Future = SCl, SC, SF
+        saved_dd = (dd.Client, dd.LocalCluster, dd.Future, dd.get_client, dd.secede, dd.rejoin)
+        the_client = []
+
+        class _Client(SCl):
+            def __init__(self, *a, **k):
+                super().__init__(*a, **k)
+                the_client.append(self)
+
+        dd.Client, dd.LocalCluster, dd.Future = _Client, SC, SF
+        dd.get_client = lambda *a, **k: the_client[-1]
+        dd.secede = lambda *a, **k: None
+        dd.rejoin = lambda *a, **k: None
     outcome = {}
 
     def dispatch():
@@ -808,7 +931,7 @@ def _execute(cfg, tape, world, wf, m, multi, viol, stats, h, want_trace):
             kernel.shutdown()
         wfmod.uuid, disp.conf.dask_dispatcher, dask_local.Queue = saved
         if saved_dd is not None:
-            dd.Client, dd.LocalCluster, dd.Future = saved_dd
+            (dd.Client, dd.LocalCluster, dd.Future, dd.get_client, dd.secede, dd.rejoin) = saved_dd
         _CUR[0] = None
 
     # ---------------- oracle over the recorded history
